@@ -173,6 +173,12 @@ func normalizeAddr(addr ssa.Value) ssa.Value {
 
 // modSetOf computes the mod-set of fn (memoised).
 func (p *Program) modSetOf(cs *ContractSet, fn *ssa.Function) *ModSet {
+	p.msMu.Lock()
+	defer p.msMu.Unlock()
+	return p.modSetOfLocked(cs, fn)
+}
+
+func (p *Program) modSetOfLocked(cs *ContractSet, fn *ssa.Function) *ModSet {
 	if ms, ok := p.modsets[fn]; ok {
 		return ms
 	}
@@ -269,8 +275,10 @@ func freshRoot(v ssa.Value) bool {
 
 // callEffect adds the effect of one call site (used for loops).
 func (p *Program) callEffect(cs *ContractSet, ms *ModSet, c *ssa.CallCommon, caller *ssa.Function) {
+	p.msMu.Lock()
+	defer p.msMu.Unlock()
 	p.calleeEffects(cs, ms, c, caller, func(f *ssa.Function) {
-		ms.union(p.modSetOf(cs, f))
+		ms.union(p.modSetOfLocked(cs, f))
 	})
 }
 
